@@ -339,6 +339,7 @@ class Interp:
         self.abstract = {}                 # (kind, unit, fn) -> [verified input signatures]: calls replaced by uninterpreted functions
         self.abstracted = set()            # which of them were actually used
         self.fresh = 0
+        self.branches = []
 
     @property
     def panic(self):
@@ -365,6 +366,11 @@ class Interp:
     def may_abort(self, cond):
         """record that every build panics when `cond` holds on the current path"""
         self._flag(self.aborts, cond)
+
+    def note_branch(self, cond):
+        """symbolic branch conditions (with their path condition), for branch-directed concrete tests"""
+        if len(self.branches) < 400:
+            self.branches.append((list(self.pc), cond))
 
     def tick(self):
         self.steps += 1
@@ -716,6 +722,12 @@ class Interp:
         if tys.startswith("&"):
             if isinstance(v, (list, BigArr)):
                 return View(v, 0, self.a_len(v))
+            if isinstance(v, Ref):
+                # an integer variable whose type was not known yet gets the type the callee declares for it
+                t = self.ty(tys)
+                x = self.ref_get(v)
+                if t in W and isinstance(x, int) and not isinstance(x, bool):
+                    self.ref_set(v, I(x, t))
             return v                      # references: Views / Refs / objects are passed on as they are
         t = self.ty(tys)
         v = self.val(v)
@@ -1097,6 +1109,7 @@ class Interp:
             return False
         if not self.symbolic:
             raise Unsupported("non-concrete condition in concrete mode")
+        self.note_branch(cv)
         s0 = self.snapshot(env, frame)
         r1 = self.run_branch(th, cv, env, frame)
         s1 = self.snapshot(env, frame)
@@ -1770,6 +1783,7 @@ class Interp:
                 if ca is False:
                     return False
                 if ca is None and self.symbolic:
+                    self.note_branch(zbool(a))
                     if self.writes(e[3]):
                         raise Unsupported("`&&` with a symbolic left operand and a right operand with side effects")
                     self.pc.append(zbool(a))    # the right operand is evaluated (and can trap) only on this path
@@ -1784,6 +1798,7 @@ class Interp:
                 if ca is True:
                     return True
                 if ca is None and self.symbolic:
+                    self.note_branch(zbool(a))
                     if self.writes(e[3]):
                         raise Unsupported("`||` with a symbolic left operand and a right operand with side effects")
                     self.pc.append(z3.Not(zbool(a)))    # the right operand is evaluated (and can trap) only on this path
@@ -1811,6 +1826,7 @@ class Interp:
                 return br(th) if cb else (br(el) if el is not None else None)
             if not self.symbolic:
                 raise Unsupported("non-concrete condition")
+            self.note_branch(cv)
             s0 = self.snapshot(env, frame)
             def side(b, cond):
                 self.pc.append(cond)
@@ -2067,6 +2083,7 @@ class Interp:
                 sat = I(((1 << w) - 1) if op == "+" else 0, a.ty)
                 if isinstance(ov, bool):
                     return sat if ov else res
+                self.note_branch(ov)
                 return self.merge_val(ov, sat, res)
             if name.startswith("overflowing"):
                 return [res, ov]
@@ -2099,6 +2116,7 @@ class Interp:
             c = self.binop("<=" if name == "min" else ">=", a, b, None)
             if isinstance(c, bool):
                 return a if c else b
+            self.note_branch(c)
             return self.merge_val(c, a, b)
         if name in ("leading_zeros", "trailing_zeros", "count_ones") and isinstance(r, I) and r.v is not None:
             x, w = r.v, r.w
